@@ -20,7 +20,7 @@ def showOutcome : Outcome → String
   | .err k killed => s!"err sentinel={if k = .muxUnsupported then "mux" else "none"} killed={showBool killed}"
   | .panic killed => s!"panic killed={showBool killed}"
 
-def run (kv : KV) : String :=
+def run (_tag : String) (kv : KV) : String :=
   match parseIntList (kv.getD "versions" "_"), parseHexList (kv.getD "allowed" "_"),
         hexToBytes (kv.getD "stream" "-"), hexToBytes (kv.getD "xaddr" "-") with
   | some versions, some allowed, some stream, some xaddr =>
